@@ -884,6 +884,16 @@ func ruleIterNext(p *Program, r *Reporter) {
 			ld, ok := v.(*ssa.UnOp)
 			return ok && ld.Op == token.MUL && isCursorAddr(ld.X)
 		}
+		// the step kept in a method of the cursor's own type: judged there,
+		// and here only that its answers are used as they are meant
+		if ok, why, decided := iterNextViaCursor(fn); decided {
+			if ok {
+				r.OkNT(key, p.Pos(fn.Pos()), why)
+			} else {
+				r.Fail(key, p.Pos(fn.Pos()), why)
+			}
+			continue
+		}
 		var yields, exhausts []*ssa.BasicBlock
 		for _, b := range fn.Blocks {
 			ret, ok := terminator(b).(*ssa.Return)
@@ -1857,6 +1867,27 @@ func ruleScopeSearch(p *Program, r *Reporter) {
 		}
 	}
 	if search == nil {
+		// … or (the scope it was found in — nil when it was not —, the object)
+		for _, fn := range p.LibFns {
+			if !recvNamed(fn, "environment", "Environment") || fn.Parent() != nil || fn == envGet || fn == envSet {
+				continue
+			}
+			rs := sigResults(fn)
+			hasObj, hasScope := false, false
+			for _, t := range rs {
+				if isObjectIface(t) {
+					hasObj = true
+				}
+				if _, isMap := t.Underlying().(*types.Map); isMap {
+					hasScope = true
+				}
+			}
+			if len(rs) >= 2 && hasObj && hasScope {
+				search = fn
+			}
+		}
+	}
+	if search == nil {
 		search = envGet
 	}
 	// the loop itself may live in a helper of the search (one that hands back
@@ -2043,14 +2074,45 @@ func ruleScopeSearch(p *Program, r *Reporter) {
 				if !ok {
 					continue
 				}
-				ex, ok := iff.Cond.(*ssa.Extract)
-				if !ok || !isBoolType(ex.Type()) {
+				// the search says "found" with a boolean, or by handing back
+				// the scope (nil when there is none)
+				var ex *ssa.Extract
+				missIdx := 1
+				switch c := iff.Cond.(type) {
+				case *ssa.Extract:
+					if isBoolType(c.Type()) {
+						ex = c
+					}
+				case *ssa.BinOp:
+					x, y := c.X, c.Y
+					if isNilConst(x) {
+						x, y = y, x
+					}
+					if e2, isEx := x.(*ssa.Extract); isEx && isNilConst(y) && (c.Op == token.NEQ || c.Op == token.EQL) {
+						if _, isMap := e2.Type().Underlying().(*types.Map); isMap {
+							ex = e2
+							if c.Op == token.EQL {
+								missIdx = 0
+							}
+						}
+					}
+				}
+				if ex == nil {
 					continue
 				}
-				if c, ok := ex.Tuple.(*ssa.Call); ok && c.Call.StaticCallee() == search && d.Idom().Succs[1] == d {
+				if c, ok := ex.Tuple.(*ssa.Call); ok && c.Call.StaticCallee() == search && d.Idom().Succs[missIdx] == d {
 					// and the found branch writes the local: through a method of
 					// the environment, or into the scope the search reported
-					tb := d.Idom().Succs[0]
+					tb := d.Idom().Succs[1-missIdx]
+					for _, i2 := range tb.Instrs {
+						if mu2, ok := i2.(*ssa.MapUpdate); ok {
+							if e3, isEx := mu2.Map.(*ssa.Extract); isEx && e3.Tuple == ex.Tuple {
+								if _, isMap := e3.Type().Underlying().(*types.Map); isMap {
+									redirect = true
+								}
+							}
+						}
+					}
 					for _, i2 := range tb.Instrs {
 						if cc := callOf(i2); cc != nil && cc.StaticCallee() != nil && recvNamed(cc.StaticCallee(), "environment", "Environment") {
 							redirect = true
@@ -2579,4 +2641,187 @@ func ruleMachineNil(p *Program, r *Reporter) {
 			}
 		}
 	}
+}
+
+// cursorStep: h is a method on a pointer to an integer cursor that takes the
+// number of members and returns (index, ok): when the cursor is below that
+// number it moves the cursor on by one and hands back its old value with
+// true; otherwise it leaves the cursor alone and answers false.
+func cursorStep(h *ssa.Function) bool {
+	if h == nil || len(h.Params) != 2 || h.Signature.Results().Len() != 2 || !isBoolType(h.Signature.Results().At(1).Type()) {
+		return false
+	}
+	c, size := ssa.Value(h.Params[0]), ssa.Value(h.Params[1])
+	pt, ok := c.Type().Underlying().(*types.Pointer)
+	if !ok {
+		return false
+	}
+	if b, ok := pt.Elem().Underlying().(*types.Basic); !ok || b.Info()&types.IsInteger == 0 {
+		return false
+	}
+	isLoad := func(v ssa.Value) bool {
+		v = stripConvSSA(v)
+		ld, ok := v.(*ssa.UnOp)
+		return ok && ld.Op == token.MUL && ld.X == c
+	}
+	var stores []*ssa.Store
+	for _, b := range h.Blocks {
+		for _, ins := range b.Instrs {
+			if st, ok := ins.(*ssa.Store); ok && st.Addr == c {
+				stores = append(stores, st)
+			}
+		}
+	}
+	if len(stores) != 1 {
+		return false
+	}
+	base, k := linear(stripConvSSA(stores[0].Val))
+	if !isLoad(base) || k != 1 {
+		return false
+	}
+	sawTrue, sawFalse := false, false
+	for _, b := range h.Blocks {
+		ret, ok := terminator(b).(*ssa.Return)
+		if !ok {
+			continue
+		}
+		okc, isC := returnOperand(ret, 1).(*ssa.Const)
+		if !isC || okc.Value == nil || okc.Value.Kind() != constant.Bool {
+			return false
+		}
+		stored := stores[0].Block() == b || stores[0].Block().Dominates(b)
+		if constant.BoolVal(okc.Value) {
+			sawTrue = true
+			// behind cursor < size, after the step, with the old value
+			guarded := false
+			for d := b; d.Idom() != nil; d = d.Idom() {
+				id := d.Idom()
+				iff, ok := terminator(id).(*ssa.If)
+				if !ok || len(d.Preds) != 1 {
+					continue
+				}
+				bo, ok := iff.Cond.(*ssa.BinOp)
+				if !ok {
+					continue
+				}
+				switch {
+				case isLoad(bo.X) && bo.Y == size && bo.Op == token.LSS && id.Succs[0] == d,
+					isLoad(bo.X) && bo.Y == size && bo.Op == token.GEQ && id.Succs[1] == d,
+					isLoad(bo.Y) && bo.X == size && bo.Op == token.GTR && id.Succs[0] == d,
+					isLoad(bo.Y) && bo.X == size && bo.Op == token.LEQ && id.Succs[1] == d:
+					guarded = true
+				}
+			}
+			idx := stripConvSSA(returnOperand(ret, 0))
+			ib, ik := linear(idx)
+			old := false
+			if isLoad(ib) {
+				if ld, ok := stripConvSSA(ib).(*ssa.UnOp); ok {
+					before := !dominatesInstr(stores[0], ld)
+					old = (before && ik == 0) || (!before && ik == -1)
+				}
+			}
+			if !guarded || !stored || !old {
+				return false
+			}
+		} else {
+			sawFalse = true
+			if stored {
+				return false
+			}
+		}
+	}
+	return sawTrue && sawFalse
+}
+
+// iterNextViaCursor: the iteration step asks such a cursor method with the
+// length of the container, yields the member at the index it was given when
+// the answer is true and reports exhaustion when it is false.
+func iterNextViaCursor(fn *ssa.Function) (ok bool, why string, decided bool) {
+	var call *ssa.Call
+	for _, b := range fn.Blocks {
+		for _, ins := range b.Instrs {
+			c, isC := ins.(*ssa.Call)
+			if !isC || !cursorStep(c.Call.StaticCallee()) {
+				continue
+			}
+			if fa, isFA := c.Call.Args[0].(*ssa.FieldAddr); isFA && fa.X == ssa.Value(fn.Params[0]) {
+				call = c
+			}
+		}
+	}
+	if call == nil {
+		return false, "", false
+	}
+	lengthLike := false
+	for _, o := range origins(call.Call.Args[1]) {
+		if _, isLen := isBuiltinCall(o, "len"); isLen {
+			lengthLike = true
+		}
+		if c, isC := o.(*ssa.Call); isC && c.Call.StaticCallee() != nil && strings.Contains(c.Call.StaticCallee().Name(), "RuneCount") {
+			lengthLike = true
+		}
+	}
+	if !lengthLike {
+		return false, "the cursor is not compared with the length of the container", true
+	}
+	var idx, flag *ssa.Extract
+	for _, ref := range *call.Referrers() {
+		if ex, isEx := ref.(*ssa.Extract); isEx {
+			if ex.Index == 0 {
+				idx = ex
+			} else {
+				flag = ex
+			}
+		}
+	}
+	if idx == nil || flag == nil {
+		return false, "the answer of the cursor's step is not used", true
+	}
+	var yes, no *ssa.BasicBlock
+	for _, ref := range *flag.Referrers() {
+		if iff, isIf := ref.(*ssa.If); isIf {
+			yes, no = iff.Block().Succs[0], iff.Block().Succs[1]
+		}
+	}
+	if yes == nil {
+		return false, "the step does not branch on the cursor's answer", true
+	}
+	for _, b := range fn.Blocks {
+		ret, isRet := terminator(b).(*ssa.Return)
+		if !isRet || len(ret.Results) != 3 {
+			continue
+		}
+		c, isC := ret.Results[2].(*ssa.Const)
+		if !isC || c.Value == nil || c.Value.Kind() != constant.Bool {
+			return false, "the step's third result is not a constant", true
+		}
+		onYes := yes == b || yes.Dominates(b)
+		onNo := no == b || no.Dominates(b)
+		if constant.BoolVal(c.Value) && !onYes {
+			return false, "the step is not guarded by cursor < length: the last element is skipped or the step runs past the end", true
+		}
+		if !constant.BoolVal(c.Value) && !onNo {
+			return false, "past the end the step does not report exhaustion (false)", true
+		}
+	}
+	// the member yielded is the one at the index handed back
+	indexed := false
+	for _, b := range fn.Blocks {
+		for _, ins := range b.Instrs {
+			if ia, isIA := ins.(*ssa.IndexAddr); isIA {
+				base, k := linear(ia.Index)
+				if base == ssa.Value(idx) {
+					if k != 0 {
+						return false, "the element yielded is not the one at the cursor's position before the step", true
+					}
+					indexed = true
+				}
+			}
+		}
+	}
+	if !indexed {
+		return false, "the element yielded is not the one at the cursor's position before the step", true
+	}
+	return true, "the step asks the cursor's own method with the container's length (cursor < length, moved on by one, old position handed back — checked there), yields the member at that position on true and reports exhaustion on false", true
 }
